@@ -109,6 +109,12 @@ func (tpl *Template) newContextForExecution(context Context) (*Template, *Execut
 	newContext := make(Context)
 	newContext.Update(tpl.set.Globals)
 
+	if context == nil && len(newContext) > 0 {
+		// the set's globals are checked like any other context, also when the
+		// caller passes none
+		context = Context{}
+	}
+
 	if context != nil {
 		newContext.Update(context)
 
